@@ -14,8 +14,8 @@ CHECK = {
              # about responses actually served, so an unreproduced failure still counts.
              flaky_is_violation=True),
         unit("fault-all-k", "pki", ["pki/cx_common_test.go", "pki/c16_revoke_test.go"], "^TestVerif_C16_FaultAllK$",
-             quick={"checks": 4, "shards": 1, "cap": 600},
-             thorough={"checks": 12, "shards": 16, "cap": 1500},
+             quick={"checks": 8, "shards": 1, "cap": 600},
+             thorough={"checks": 40, "shards": 16, "cap": 1500},
              flaky_is_violation=True),
     ],
 }
